@@ -95,11 +95,21 @@ def check_root(name, variant, tier, seed, res=None, only=None):
                 res.counters["states"] += 1
                 res.counters["evaluations"] += 1
                 res.counters["transitions"] += 1 + len(trace)
-            if len(clusters) != 1 or len(clusters[0].indices) != n:
-                if res is not None:
-                    res.counters["filtered_not_single_cluster"] += 1  # that is C02's claim, not C04's
-                continue
-            cell = clusters[0].get_cell()
+            if variant[0] == "mono":
+                # C02 makes no completeness claim for monolayers: judge the prototype cell of the cluster holding most atoms
+                if not clusters:
+                    viol.append((label, script, "no_cluster", "no cluster was returned for the monolayer"))
+                    continue
+                big = max(clusters, key=lambda c: len(c.indices))
+                if res is not None and (len(clusters) != 1 or len(big.indices) != n):
+                    res.counters["monolayer_not_single_cluster"] += 1
+            else:
+                if len(clusters) != 1 or len(clusters[0].indices) != n:
+                    if res is not None:
+                        res.counters["filtered_not_single_cluster"] += 1  # that is C02's claim, not C04's
+                    continue
+                big = clusters[0]
+            cell = big.get_cell()
             if cell is None:
                 viol.append((label, script, "no_cell", "the cluster exposes no prototype cell"))
                 continue
